@@ -239,6 +239,9 @@ EXPRS = [
     ("t", "sqrt(z**2+1)"),
     ("s", "v"),
     ("s", "2.5"),
+    # several input symbols, not symmetric in any pair of them (argument order matters)
+    ("m", "a*b - c/(d+3) + e**2*f"),
+    ("q", "x - 2*v + 3*z*a - b**2"),
 ]
 NAMES = ["", "D", "my disc", "dd"]
 
@@ -268,7 +271,7 @@ def _gc(*paths):
 
 reg(Recipe(
     "AnalyticDiscipline", "discipline", ("AnalyticDiscipline",),
-    st.fixed_dictionaries({"e": st.lists(st.integers(0, 7), min_size=1, max_size=3), "name": st.integers(0, 3)}),
+    st.fixed_dictionaries({"e": st.lists(st.integers(0, len(EXPRS) - 1), min_size=1, max_size=3), "name": st.integers(0, 3)}),
     _b_analytic, grammars=GRAMMARS, radius=1.0, weight=3,
     gclasses=_gc("gemseo.disciplines.analytic.AnalyticDiscipline"),
 ))
